@@ -21,7 +21,7 @@ contract(A, 'chunk_bounds', props=['C16'],
               ],
               'updates': {'cov': 'ite(clip(keep_start, n_samples) < clip(keep_end, n_samples), clip(keep_end, n_samples), cov)'}},
     loops={0: {'invariant': [
-        ('keep_end-in-overlap-zone', 's_end - overlap <= keep_end and keep_end <= s_end'),
+        ('keep_end-in-overlap-zone', 's_end - overlap <= keep_end and keep_end <= s_end - overlap // 2'),
         ('s_end-at-least-chunk', 's_end >= chunk_size'),
         ('cov-is-clipped-keep_end', 'cov == clip(keep_end, n_samples)'),
         ('keep_end-positive', 'keep_end >= 1'),
@@ -29,3 +29,73 @@ contract(A, 'chunk_bounds', props=['C16'],
     at_exit=[('all-covered', 'cov == n_samples')],      # "concatenate to exactly the whole data"
     hints={'replay': ('chunk_bounds', {'n': 'n_samples', 'cs': 'chunk_size', 'ov': 'overlap'})},
     statement='kept parts of successive overlapping chunks concatenate to exactly the whole data ...')
+
+contract(A, '_excerpt_step', props=['C16'],
+    params={'n_samples': 'int', 'n_excerpts': 'int', 'excerpt_size': 'int'},
+    requires=[('ne>=2', 'n_excerpts >= 2'), ('es>=1', 'excerpt_size >= 1')],
+    result='int',
+    # what callers need for disjointness: consecutive starts are at least one excerpt apart
+    ensures=[('step-at-least-excerpt-size', 'result >= excerpt_size')])
+
+contract(A, 'excerpts', props=['C16'],
+    params={'n_samples': 'int', 'n_excerpts': 'int', 'excerpt_size': 'int'},
+    requires=[('n>=0', 'n_samples >= 0'), ('ne>=2', 'n_excerpts >= 2'), ('es>=1', 'excerpt_size >= 1')],
+    ghost={'prev_end': '0', 'cnt': '0'},
+    on_yield={'vars': ['start', 'end'],
+              'requires': [('in-bounds-nonempty', '0 <= start and start < end and end <= n_samples'),
+                           ('at-most-excerpt-size', 'end - start <= excerpt_size'),
+                           ('disjoint-increasing', 'start >= prev_end')],
+              'updates': {'prev_end': 'end', 'cnt': 'cnt + 1'}},
+    loops={0: {'invariant': [('count-is-index', 'cnt == i and i >= 0 and i <= n_excerpts'),
+                             ('previous-end-before-next-start', 'prev_end <= i * step'),
+                             ('step', 'step >= excerpt_size')]}},
+    at_exit=[('at-most-n-excerpts', 'cnt <= n_excerpts')],
+    hints={'replay': ('excerpts', {'n': 'n_samples', 'ne': 'n_excerpts', 'es': 'excerpt_size'})})
+
+from pyvc.contract import declare_class
+
+declare_class('BaseEphysReader', T)
+declare_class('FlatEphysReader', T)
+declare_class('ArrayEphysReader', T)
+declare_class('MtscompEphysReader', T)
+# assumed field contract of mtscomp.Reader (DESIGN 2.5) — see the requires of MtscompEphysReader.iter_chunks
+declare_class('MtscompReader', None, fields={'n_batches': 'int', 'batch_size': 'int', 'n_chunks': 'int', 'chunk_bounds': 'list[int]', 'pool': 'elem'})
+
+WF_BOUNDS = [('bounds-nonempty', 'len(self.chunk_bounds) >= 2'),
+             ('bounds-start-at-0', 'self.chunk_bounds[0] == 0'),
+             ('bounds-strictly-increasing', 'increasing(self.chunk_bounds)')]
+
+contract(T, 'BaseEphysReader.iter_chunks', props=['C16'],
+    params={'cache': 'bool'}, fields={'chunk_bounds': 'list[int]'},
+    requires=WF_BOUNDS,
+    ghost={'cov': '0'},
+    on_yield={'vars': ['i0', 'i1'],
+              'requires': [('starts-where-previous-ended', 'i0 == cov'), ('nonempty', 'i0 < i1')],
+              'updates': {'cov': 'i1'}},
+    loops={0: {'idx': 'k', 'invariant': [('cov-is-kth-bound', '0 <= k and k <= len(self.chunk_bounds) - 1 and cov == self.chunk_bounds[k]')]}},
+    at_exit=[('tiles-whole-recording', 'cov == self.chunk_bounds[len(self.chunk_bounds) - 1]')])
+
+for _m in ('start_thread_pool', 'stop_thread_pool'):
+    contract('<lib>', 'MtscompReader.' + _m, kind='assumed', params={'self': 'obj[MtscompReader]'}, note='effect-free for the yields (A)')
+contract('<lib>', 'MtscompReader.set_cache_size', kind='assumed', params={'self': 'obj[MtscompReader]', 'n': 'int'})
+contract('<lib>', 'MtscompReader.decompress_chunks', kind='assumed', params={'self': 'obj[MtscompReader]', 'chunks': 'elem', 'pool': 'elem'},
+         requires=[])
+
+contract(T, 'MtscompEphysReader.iter_chunks', props=['C16'],
+    params={'cache': 'bool'}, fields={'reader': 'obj[MtscompReader]'},
+    let={'cb': 'self.reader.chunk_bounds', 'nch': 'self.reader.n_chunks', 'bs': 'self.reader.batch_size', 'nb': 'self.reader.n_batches'},
+    requires=[('A-mtscomp:n_chunks', 'nch == len(cb) - 1 and nch >= 1'),
+              ('A-mtscomp:batch_size', 'bs >= 1'),
+              ('A-mtscomp:n_batches=ceil(n_chunks/batch_size)', 'bs * (nb - 1) < nch and nch <= bs * nb'),
+              ('A-mtscomp:bounds', 'cb[0] == 0 and increasing(cb)')],
+    ghost={'cov': '0'},
+    on_yield={'vars': ['i0', 'i1'],
+              'requires': [('starts-where-previous-ended', 'i0 == cov'), ('not-inverted', 'i0 <= i1'),
+                           ('on-chunk-grid', 'any(cb[y] == i1 for y in range(len(cb)))')],
+              'updates': {'cov': 'i1'}},
+    locals={'last_chunk': 'int', 'first_chunk': 'int'},
+    loops={0: {'invariant': [('batch-range', '0 <= batch and batch <= nb'),
+                             ('cov-at-last-kept-chunk', 'cov == cb[max(min(bs * batch, nch) - 1, 0)]'),
+                             ('last_chunk', 'implies(batch > 0, last_chunk == min(bs * batch, nch) - 1)')],
+               'lemmas': [('mul-monotone', 'implies(bs >= 1 and batch <= nb - 1, bs * batch <= bs * (nb - 1))')]}},
+    at_exit=[('tiles-whole-recording', 'cov == cb[len(cb) - 1]')])
